@@ -88,6 +88,12 @@ Proof.
   - apply Qltb_false in B. rewrite <- Zle_Qle in B. assert (n = 0%Z) by lia. subst. apply py_round_Q_int.
 Qed.
 
+Lemma param_16_Q_idem : forall x : Q, param_16_Q (z2q (param_16_Q x)) = param_16_Q x.
+Proof. intro x. apply param_16_Q_int. apply param_16_Q_range. Qed.
+
+Lemma param_32_Q_idem : forall x : Q, param_32_Q (z2q (param_32_Q x)) = param_32_Q x.
+Proof. intro x. apply param_32_Q_int. apply param_32_Q_range. Qed.
+
 (* ---------------------------------------------------------------- the conversions *)
 
 Lemma EPSILON_Q_val : EPSILON_Q == 1 # 131072.
